@@ -895,3 +895,78 @@ def dispatch(c, seed=(0,), nint=6, types=("cell", "exterior_facet", "interior_fa
     b = Built(c, forms=forms)
     b.declared = decl
     return b
+
+
+@builder
+def packing(c, seed=(0,), ncoef=6, nconst=3, arity=1, use_dS=True, mode="subsets"):
+    """Forms whose integrals use different coefficient subsets, with coefficients that drop out
+    (differentiation, replace, zero factors) and constants created in shuffled order."""
+    rng = np.random.default_rng(list(seed))
+    els = [c.el("Lagrange", 1), c.el("Lagrange", 2), c.el("DG", 1), c.el("Lagrange", 1, shape=(c.gdim,))]
+    if c.cell in ("triangle", "tetrahedron"):
+        els.append(basix.ufl.mixed_element([c.el("Lagrange", 1, shape=(c.gdim,)), c.el("Lagrange", 1)]))
+    # constants first/last/interleaved with coefficients: creation order = count order
+    consts = []
+    coefs = []
+    order = list(rng.permutation(ncoef + nconst))
+    shapes = [(), (c.gdim,), (c.gdim, c.gdim)]
+    for o in order:
+        if o < ncoef:
+            coefs.append(Coefficient(c.space(els[int(rng.integers(len(els)))])))
+        else:
+            consts.append(Constant(c.mesh, shape=shapes[int(rng.integers(3))]))
+    V = c.V("Lagrange", 1)
+    u, v = TrialFunction(V), TestFunction(V)
+
+    def scal(f, R=lambda e: e):
+        sh = f.ufl_shape
+        if sh == ():
+            return R(f)
+        if len(sh) == 1:
+            return R(f)[0] + 0.5 * R(f)[sh[0] - 1]
+        return R(f)[0, 0] + R(f)[sh[0] - 1, 0]
+
+    def integrand(sub_co, sub_k, R=lambda e: e):
+        e = 1.0
+        for f in sub_co:
+            e = e * (1.5 + scal(f, R))
+        for k in sub_k:
+            e = e * (2.0 + scal(k))
+        if arity == 2:
+            return e * inner(R(u), R(v))
+        if arity == 1:
+            return inner(e, R(v))
+        return e
+
+    def pick(xs, lo=0):
+        if arity == 0 and xs is coefs:
+            lo = 1
+        n = int(rng.integers(lo, min(len(xs), 3) + 1))
+        idx = sorted(rng.permutation(len(xs))[:n])
+        return [xs[i] for i in idx]
+
+    form = integrand(pick(coefs, 1), pick(consts), ) * dx
+    form += integrand(pick(coefs, 1), pick(consts)) * ds
+    form += integrand(pick(coefs), pick(consts)) * dx(1)
+    if use_dS:
+        side = ["+", "-"][int(rng.integers(2))]
+        form += integrand(pick(coefs, 1), pick(consts), lambda e: e(side)) * dS
+    if mode == "derivative" and arity >= 1:
+        # differentiate w.r.t. one scalar coefficient: others may drop out
+        cand = [f for f in form.coefficients() if f.ufl_shape == () and f.ufl_function_space().ufl_element() == V.ufl_element()]
+        if cand and arity == 1:
+            F = form
+            form = derivative(F, cand[0], TrialFunction(V))
+    if mode == "replace":
+        fs = [f for f in form.coefficients()]
+        if len(fs) >= 2:
+            a, b_ = fs[0], fs[-1]
+            if a.ufl_function_space() == b_.ufl_function_space():
+                form = ufl.replace(form, {a: b_})
+    if mode == "zero":
+        fs = [f for f in coefs if f.ufl_shape == ()]
+        if fs:
+            form = form + (fs[0] - fs[0]) * integrand([fs[0]], []) * dx
+    b = Built(c, forms=[form])
+    b.all_coefficients = coefs
+    return b
